@@ -5,45 +5,56 @@
 (* corrupted, at most b resp. f of them) are checked against the           *)
 (* property-layer operators of Robust.tla.                                 *)
 (*                                                                         *)
-(* episode: [ep, kind, par, k, ja, jb, bad, exc, out, sel, wok, avgok]     *)
+(* episode: [ep, kind, par, ja, jb, oa, ob, bad, exc, out, calls]           *)
+(*   ja, jb the SPREAD matrix; the aggregator was called on                *)
+(*          (ja + oa) + S * (jb + ob): a common offset changes neither the  *)
+(*          distances nor the scores (Robust!OffsetInvariant), so the      *)
+(*          selection is validated on the spread matrix; this is how the   *)
+(*          many-row episodes (m up to 40, large offset + small spread)    *)
+(*          are checked exactly although offset + spread is never squared  *)
 (*   bad    corrupted rows (<= par of them)                                *)
-(*   exc    "none" or the exception type                                   *)
+(*   exc    TrimmedMean: "none" or the exception type                      *)
 (*   out    TrimmedMean: the returned vector, each coordinate rationalised *)
 (*          as <<num, den>> (<<0, 0>> = not a small rational / not finite) *)
-(*   sel    Krum: rows with a non-zero weight                              *)
-(*   wok    Krum: the non-zero weights are all 1/k, the others exactly 0   *)
-(*   avgok  Krum: the returned vector is the plain average of the rows sel *)
-(* One step per episode; a failing episode prints <<"REJECT", ...>> with   *)
-(* the failing clause; <<"SUMMARY", ...>> ends the run.                    *)
+(*   calls  Krum: one record [k, exc, sel, wok, avgok] per n_selected      *)
+(*          tried on this matrix (the scores do not depend on k)           *)
+(*     sel    rows with a non-zero weight                                  *)
+(*     wok    the non-zero weights are all 1/k, the others exactly 0       *)
+(*     avgok  the returned vector is the plain average of the rows sel     *)
+(* One step per episode; a failing call prints <<"REJECT", ...>> with the  *)
+(* failing clause; <<"SUMMARY", ...>> ends the run.                        *)
 (***************************************************************************)
 EXTENDS Robust, IOUtils, TLCExt
 
 Episodes == JsonDeserialize(IOEnv.TRACE_FILE)
 NEp      == Len(Episodes)
 
-VARIABLES ep, stage, nAcc, nRej, nAmb
-tvars == <<kind, m, par, hs, status, corrupt, JA, JB, ep, stage, nAcc, nRej, nAmb>>
+VARIABLES ep, stage, nAcc, nRej, nAmb, nCalls,
+          cur      \* the relation "definitely smaller score" of the episode just validated
+tvars == <<kind, m, par, hs, status, corrupt, JA, JB, ep, stage, nAcc, nRej, nAmb, nCalls, cur>>
 
 E == Episodes[ep]
 SeqSet(s) == {s[i] : i \in DOMAIN s}
 
 TInit == /\ kind = "tm" /\ m = 1 /\ par = 0 /\ hs = 0 /\ status = "ok" /\ corrupt = {}
          /\ JA = <<<<0>>>> /\ JB = <<<<0>>>>
-         /\ ep = 1 /\ stage = "run" /\ nAcc = 0 /\ nRej = 0 /\ nAmb = 0
+         /\ ep = 1 /\ stage = "run" /\ nAcc = 0 /\ nRej = 0 /\ nAmb = 0 /\ nCalls = 0 /\ cur = {}
 
 \* ---------------------------------------------------------------- TrimmedMean
+\* (the trimmed mean of J + o is the trimmed mean of J, plus o: Robust!OffsetInvariant)
 TMClause ==
     LET mm  == Len(E.ja)
         adm == TMAdmissible(mm, E.par)
     IN  IF ~adm THEN (IF E.exc = "none" THEN "too_few_rows_not_rejected" ELSE "none")
         ELSE IF E.exc # "none" THEN "raised_although_enough_rows"
-        ELSE LET want == PropTM(E.ja, E.jb, E.par)
-                 obs  == [c \in DOMAIN E.out |-> [a |-> E.out[c], b |-> RZero]]
+        ELSE LET w0   == PropTM(E.ja, E.jb, E.par)
+                 want == [c \in DOMAIN w0 |-> [a |-> RAdd(w0[c].a, R(E.oa)), b |-> RAdd(w0[c].b, R(E.ob))]]
+                 obs  == [c \in DOMAIN E.out |-> [a |-> RSub(E.out[c], R(E.oa)), b |-> RZero]]
              IN  IF \E c \in DOMAIN want : want[c].b = RZero /\ E.out[c] # want[c].a
                       THEN "not_the_mean_after_removing_b_largest_and_b_smallest"
                  ELSE IF \E c \in DOMAIN want : want[c].b # RZero /\ E.out[c] # <<0, 0>>
                       THEN "not_the_mean_after_removing_b_largest_and_b_smallest"
-                 ELSE IF Cardinality(SeqSet(E.bad)) <= E.par
+                 ELSE IF Cardinality(SeqSet(E.bad)) <= E.par /\ E.ob = 0
                          /\ \A c \in DOMAIN E.out : E.out[c] # <<0, 0>>
                          /\ ~InHonestRange(obs, E.ja, SeqSet(E.bad))
                       THEN "outside_the_range_of_the_untouched_rows"
@@ -52,37 +63,45 @@ TMClause ==
                  ELSE "none"
 
 \* ---------------------------------------------------------------- Krum
+\* the relation "definitely smaller score" of the SPREAD matrix (computed once per episode)
 KrumRel == BelowRel(KrumScores(E.ja, E.jb, E.par))
-KrumClause ==
+KrumClauseAt(rel, c) ==
     LET mm  == Len(E.ja)
-        adm == KrumAdmissible(mm, E.par, E.k)
-    IN  IF ~adm THEN (IF E.exc = "none" THEN "too_few_rows_not_rejected" ELSE "none")
-        ELSE IF E.exc # "none" THEN "raised_although_enough_rows"
-        ELSE IF ~E.wok \/ Cardinality(SeqSet(E.sel)) # E.k \/ Len(E.sel) # E.k
+        adm == KrumAdmissible(mm, E.par, c.k)
+    IN  IF ~adm THEN (IF c.exc = "none" THEN "too_few_rows_not_rejected" ELSE "none")
+        ELSE IF c.exc # "none" THEN "raised_although_enough_rows"
+        ELSE IF ~c.wok \/ Cardinality(SeqSet(c.sel)) # c.k \/ Len(c.sel) # c.k
              THEN "not_exactly_k_distinct_rows_with_weight_1_over_k"
-        ELSE IF ~KrumAllowed(SeqSet(E.sel), KrumRel, 1..mm, E.k)
+        ELSE IF ~KrumAllowed(SeqSet(c.sel), rel, 1..mm, c.k)
              THEN "selected_rows_do_not_have_the_smallest_scores"
-        ELSE IF ~E.avgok THEN "output_is_not_the_plain_average_of_the_selected_rows"
+        ELSE IF ~c.avgok THEN "output_is_not_the_plain_average_of_the_selected_rows"
         ELSE "none"
-KrumAmbiguous ==
+KrumAmbiguousAt(rel, c) ==
     LET mm == Len(E.ja) IN
-    KrumAdmissible(mm, E.par, E.k) /\ Cardinality(MustIn(KrumRel, 1..mm, E.k)) # E.k
+    KrumAdmissible(mm, E.par, c.k) /\ Cardinality(MustIn(rel, 1..mm, c.k)) # c.k
 
 TStep == /\ ep <= NEp /\ stage = "run"
-         /\ LET cl == IF E.kind = "tm" THEN TMClause ELSE KrumClause
-                amb == E.kind = "krum" /\ KrumAmbiguous
-            IN  /\ (cl # "none" => PrintT(<<"REJECT", ToJson([ep |-> E.ep, clause |-> cl])>>))
-                /\ nAcc' = nAcc + (IF cl = "none" THEN 1 ELSE 0)
-                /\ nRej' = nRej + (IF cl = "none" THEN 0 ELSE 1)
-                /\ nAmb' = nAmb + (IF amb THEN 1 ELSE 0)
+         \* computed once per episode and held in the next state (a LET would be re-evaluated per call)
+         /\ cur' = IF E.kind = "krum" /\ Len(E.ja) >= E.par + 3 THEN KrumRel ELSE {}
+         /\ LET isK == E.kind = "krum"
+                rel == cur'
+                cls == IF isK THEN [x \in DOMAIN E.calls |-> [k |-> E.calls[x].k, cl |-> KrumClauseAt(rel, E.calls[x])]]
+                       ELSE << [k |-> 0, cl |-> TMClause] >>
+                bad == {x \in DOMAIN cls : cls[x].cl # "none"}
+                amb == IF isK THEN Cardinality({x \in DOMAIN E.calls : KrumAmbiguousAt(rel, E.calls[x])}) ELSE 0
+            IN  /\ \A x \in bad : PrintT(<<"REJECT", ToJson([ep |-> E.ep, k |-> cls[x].k, clause |-> cls[x].cl])>>)
+                /\ nAcc' = nAcc + (IF bad = {} THEN 1 ELSE 0)
+                /\ nRej' = nRej + (IF bad = {} THEN 0 ELSE 1)
+                /\ nAmb' = nAmb + amb
+                /\ nCalls' = nCalls + Len(cls)
          /\ ep' = ep + 1
          /\ UNCHANGED <<kind, m, par, hs, status, corrupt, JA, JB, stage>>
 
 TDone == /\ ep = NEp + 1 /\ stage = "run"
          /\ PrintT(<<"SUMMARY", ToJson([episodes |-> NEp, accepted |-> nAcc, rejected |-> nRej,
-                                         ambiguous |-> nAmb])>>)
+                                         ambiguous |-> nAmb, calls |-> nCalls])>>)
          /\ stage' = "end"
-         /\ UNCHANGED <<kind, m, par, hs, status, corrupt, JA, JB, ep, nAcc, nRej, nAmb>>
+         /\ UNCHANGED <<kind, m, par, hs, status, corrupt, JA, JB, ep, nAcc, nRej, nAmb, nCalls, cur>>
 
 TNext == TStep \/ TDone
 TraceSpec == TInit /\ [][TNext]_tvars
